@@ -70,6 +70,10 @@ pub fn compile_jit(
     let mut flag_builder = settings::builder();
     flag_builder.set("use_colocated_libcalls", "false").unwrap();
     flag_builder.set("is_pic", "false").unwrap();
+    // i128/u128 parameters and return values need this on x86-64
+    flag_builder
+        .set("enable_llvm_abi_extensions", "true")
+        .unwrap();
     let isa_builder = cranelift_native::builder().unwrap_or_else(|msg| {
         panic!("host machine is not supported: {}", msg);
     });
@@ -117,6 +121,10 @@ pub fn compile_obj(
     // if "is_pic=false" does not work on macos
     // i spent a LOT of time narrowing down a crash to that issue
     flag_builder.set("is_pic", "true").unwrap();
+    // i128/u128 parameters and return values need this on x86-64
+    flag_builder
+        .set("enable_llvm_abi_extensions", "true")
+        .unwrap();
 
     let isa_builder = isa::lookup(target).unwrap_or_else(|msg| {
         println!("invalid target: {}", msg);
